@@ -60,6 +60,13 @@ def run(tier, seed):
                 p['sections'] = secs
                 apel.fix_real_plugins(p)
                 pels.append(p)
+            # designed: payloads of equal length and equal CRC-32 (different bytes) in sections without decoder and in sections of the echoing module
+            for n_ in (64, 700):
+                a_, b_ = apel.crc_twins(rng, n_)
+                p = apel.gen_pel(rng, max_sections=0)
+                p['ph']['creator'] = ord('x')
+                p['sections'] = [{'kind': 'ud', 'hdr': dict(apel.gen_hdr(rng), comp=c_, sub=7, ver=1), 'payload': x_} for c_ in (0x7777, 0x1111) for x_ in (a_, b_)]
+                pels.append(p)
             # designed: built-in JSON / text user data with non-ASCII characters (two-byte, three-byte, astral), always taken through the command-line routes
             designed = set()
             for js, txt in ((b'{"k\xc3\xa9": "v \xe2\x82\xac \xf0\x9f\x98\x80", "l": ["\xc3\xbc"]}', b'na\xc3\xafve caf\xc3\xa9\nsecond \xe2\x82\xac line'), (b'["\xc2\xb0C", {"m\xce\xa9": 1}]', b'\xc2\xb0C')):
